@@ -60,6 +60,21 @@ CHECKS = {
              "(statistical approximation, no exact abstract counterpart).",
         technique="TLC model checking of Spectra.tla + replay into SD_est (impulse probing, Welch reference on the spec's segments)",
     ),
+    "C19": dict(
+        text="Geo.tla (+ Layout.tla): TLC enumerates table sets - name forms (row table, list, array; multi-setup list of "
+             "lists / table with every reference layout), every row permutation of the coordinate / direction tables, optional "
+             "sheets present or absent, every single-fault corruption; geo2: mapping tables over sensor / constraint / 0 / NaN "
+             "cells, constraint matrices, sign tables - and checks RejectIffMalformed, OptionalSheetsOptional, ZeroBased, "
+             "RowKIsSensorK, ZeroWhereNothingNamed; the prediction is ValueError or the geometry (names, which sensor every "
+             "re-ordered row is, zero-based indices, mapped and displayed mode-shape values). Every case goes through "
+             "check_on_geo1/2, def_geo1/2 on SingleSetup / MultiSetup_PreGER / MultiSetup_PoSER, dfphi_map_func and the Agg "
+             "artists of plot_mode_geo1 / plot_mode_geo2_mpl (sensor k sits at (10k, k, -k) and carries component k+1).",
+        ref="DESIGN.md §4.8, §5 C19, §6",
+        note="Trusted: TLC, pandas DataFrames shaped as read_excel(sheet_name=None, index_col=0) returns them (openpyxl is "
+             "not installed offline: reading .xlsx itself is outside the claim), matplotlib 3D artist accessors. Name forms "
+             "are varied; coordinate / direction / optional tables are always handed in as DataFrames.",
+        technique="TLC model checking of Geo.tla + replay of every table set through the validation functions, def_geo* and the mode plots",
+    ),
     "C14": dict(
         text="Setup.tla models the setup life cycle (decimate/detrend/filter/rollback/add) with a symbolic data term "
              "and exact rational metadata; TLC checks MetaTruthful, RollbackRestores, BindingFrozen, BoundToCurrent on "
